@@ -329,6 +329,18 @@ func (pv *prov) walk(v ssa.Value, pd, d int) {
 			return
 		}
 		pv.add("alloc:" + typeStr(deref(x.Type())))
+		// a local array (variadic arguments, slice literal): the values stored into its elements
+		if _, isArr := deref(x.Type()).Underlying().(*types.Array); isArr && x.Referrers() != nil {
+			for _, ref := range *x.Referrers() {
+				if ia, ok := ref.(*ssa.IndexAddr); ok && ia.Referrers() != nil {
+					for _, r2 := range *ia.Referrers() {
+						if st, ok := r2.(*ssa.Store); ok && st.Addr == ssa.Value(ia) {
+							pv.walk(st.Val, pd, d+1)
+						}
+					}
+				}
+			}
+		}
 	case *ssa.MakeMap, *ssa.MakeSlice, *ssa.MakeChan:
 		pv.add("alloc:" + typeStr(v.Type()))
 	case *ssa.FreeVar:
